@@ -348,9 +348,79 @@ def separator_cases():
     return cases
 
 
+ESCAPE_PAIRS = [
+    # two patterns that differ ONLY in the letter case of a meaningful escape (or of nothing but letters), with
+    # descriptions separating them: both rules live in ONE file (= one process), both get transactions
+    (r'CHECK\s+\d+', r'CHECK\s+\D+', ['CHECK 1042', 'CHECK CARD PURCHASE', 'CHECK  77 X', 'CHECKS']),
+    (r'ATM\sWD', r'ATM\SWD', ['ATM WD 12', 'ATM-WD 12', 'ATMWD']),
+    (r'ID\w\w', r'ID\W\W', ['IDAB', 'ID--', 'ID A']),
+    (r'\bPAY\b', r'\BPAY\B', ['PAY NOW', 'XPAYX', 'REPAY']),
+    (r'REF\d{4}', r'REF\D{4}', ['REF1234', 'REFABCD', 'REF12AB']),
+    (r'\AZELLE', r'\aZELLE', ['ZELLE TO BOB', '\x07ZELLE', 'X ZELLE']),
+    (r'X\d\S', r'X\D\s', ['X1Y', 'XY ', 'X12']),
+    ('uber eats', 'UBER EATS', ['Uber Eats 12', 'UBER TRIP']),
+    (r'[\d]+ST', r'[\D]+ST', ['12ST', 'ABST', '1AST']),
+]
+
+
+def escape_pair_cases():
+    """Deterministic corpus: escape-case pattern pairs in one file, in both orders, as different merchants, and
+    with an unrelated rule in between; every description against the whole file."""
+    out = []
+    for p1, p2, descs in ESCAPE_PAIRS:
+        txs = [tx(d) for d in descs] + [tx(d.lower()) for d in descs[:2]]
+        a, b = mk(p1, 'First', 'Cat1', 'Sub1', tags=['one']), mk(p2, 'Second', 'Cat2', 'Sub2', tags=['two'])
+        mid = mk('NETFLIX', 'Netflix', 'Subs', 'Tv')
+        out.append(([a, b], txs))
+        out.append(([b, a], txs))
+        out.append(([a, mid, b], txs + [tx('NETFLIX.COM')]))
+    # all pairs in one file (one process compiles every pattern)
+    alls = []
+    for i, (p1, p2, descs) in enumerate(ESCAPE_PAIRS):
+        alls += [mk(p1, f'A{i}', '', '', tags=[f'a{i}']), mk(p2, f'B{i}', '', '', tags=[f'b{i}'])]
+    out.append((alls, [tx(d) for _, _, ds in ESCAPE_PAIRS for d in ds[:2]]))
+    return [make_case(specs, t) for specs, t in out]
+
+
+QUOTING_PATTERNS = [
+    # quotes and backslashes in every arrangement: escaped quote, escaped backslash before a quote, quote at
+    # either end, runs of backslashes, single quotes, triple quotes, a literal that looks raw / prefixed
+    (r'SQ \*\"THE LOCAL\" CAFE', ['SQ *"THE LOCAL" CAFE 12', 'SQ *THE LOCAL CAFE']),
+    (r'[^\"]+X', ['ABX', '"X']),
+    (r'A\\"B', ['A\\"B', 'A"B']),
+    (r'A\\\"B', ['A\\"B', 'A\\B']),
+    (r'\"', ['SAY "HI"', 'SAY HI']),
+    (r'END\"', ['THE END"', 'THE END']),
+    (r'"START', ['"START', 'START']),
+    (r'TAIL\\', ['TAIL\\ X', 'TAIL X']),
+    (r'\\', ['A\\B', 'AB']),
+    ('\\\\\\\\', ['A\\\\B', 'A\\B']),
+    ('"""', ['TRIPLE """ Q', 'TRIPLE " Q']),
+    ('""', ['TWO "" Q', 'ONE " Q']),
+    ('JOE\\\'S \\"BAR\\"', ['JOE\'S "BAR"', 'JOES BAR']),
+    ("IT'S", ["IT'S HERE", 'ITS HERE']),
+    ("'" * 3, ["A " + "'" * 3 + " B", "A ' B"]),
+    ('r"RAW"', ['r"RAW" X', 'RAW X']),
+    (r'\d+"', ['12" PIZZA', '12 PIZZA']),
+    (r'"\d+', ['SIZE "12', 'SIZE 12']),
+    ('\\\\d"', ['\\d" X', '5" X']),
+    ('X#"#', ['AX#"# B', 'AX## B']),
+]
+
+
+def quoting_cases():
+    """Deterministic corpus: each quoting pattern alone and all of them in one file."""
+    out = []
+    for i, (p, descs) in enumerate(QUOTING_PATTERNS):
+        out.append(([mk(p, f'Q{i}', 'Cat', 'Sub', tags=['q'])], [tx(d) for d in descs]))
+    out.append(([mk(p, f'Q{i}', 'Cat', 'Sub') for i, (p, _) in enumerate(QUOTING_PATTERNS)],
+                [tx(d) for _, ds in QUOTING_PATTERNS for d in ds]))
+    return [make_case(specs, t) for specs, t in out]
+
+
 def gen_cases(seed, n, today):
     rnd = random.Random(seed)
-    cases = interaction_cases() + separator_cases()
+    cases = interaction_cases() + separator_cases() + escape_pair_cases() + quoting_cases()
     # boundary stream: every hazard pattern alone, every safe pattern alone with one modifier of each kind
     for hz, pool in (('backslash', HAZ_BACKSLASH), ('quote', HAZ_QUOTE), ('paren', HAZ_PAREN), ('case', HAZ_CASE)):
         for pat, descs in pool:
@@ -1042,7 +1112,7 @@ def main(tier):
         broken.append({'kind': 'hygiene', 'detail': res['hygiene']})
 
     today = datetime.date.today()
-    n = 200 if tier == 'quick' else 4000
+    n = 170 if tier == 'quick' else 4000
     wit = witness_cases()
     cases = wit + gen_cases(run.seed, n, today)
     out = run_files(cases, timeout=3000)
